@@ -63,6 +63,17 @@ def make_workspace(rng, ncrates):
                 via = rng.choice([x for x in crates if x not in (c, oc)]).replace("-", "_")
                 f["items"].insert(0, {"kind": "use", "tree": ("upath", via, ("uname", w))})
                 style[w] = "use-reexport"
+            elif r < 0.92:
+                # no `use` at all: the type is named by a qualified path *inside the generic arguments* of a type that is itself
+                # named by a qualified path (`crate::LocalWrapN<other_crate::T>`)
+                k = len(f["items"])
+                lw = "LocalWrap%d" % k
+                f["items"].append({"kind": "struct", "attrs": [m_path("typeshare")], "ident": lw, "generics": [("ty", "T")],
+                                   "fields": ("named", [field([], "inner", t_path("T"))])})
+                f["items"].append({"kind": "struct", "attrs": [m_path("typeshare")], "ident": "QualUser%d" % k, "generics": [],
+                                   "fields": ("named", [field([], "q", t_path(lw, [t_path(w, quals=[ocn])], quals=["crate"]))])})
+                mine = mine + [lw, "QualUser%d" % k]
+                style[w] = "qualified-in-generic"
             else:
                 style[w] = "none"
         sub = rng.choice(["", "models/", "a/b/"])
@@ -173,7 +184,7 @@ def run(check):
                             st = f["style"][wname]
                             if st == "none":
                                 continue      # a reference without any `use` or qualification names no crate: out of scope
-                            if re.search(r"\b(?:self|crate|super)::%s\b" % re.escape(wname), render_file(f["file"])):
+                            if re.search(r"\b(?:self|crate|super)::(?:\w+::)*%s\b" % re.escape(wname), render_file(f["file"])):
                                 # `self::T` next to `use other::T;` records a second import of T (from the current crate);
                                 # which one HashSet::find returns depends on the hash seed (the ambiguous class of C06)
                                 check.count("ambiguous: qualified self/crate/super path next to a use")
